@@ -197,6 +197,9 @@ pub fn run_budgeted(
     slice_units: usize,
 ) -> (RunEnd, Trace, Option<Executor<NativeEffect>>) {
     let Some(entry) = bc.entry else { return (RunEnd::Error("no entry".into()), vec![], None) };
+    // a panic inside a simulator run may have left the per-thread controls set
+    quiver_core::executor::verif::set_quantum_override(None);
+    quiver_core::executor::verif::set_trace(None);
     if trace_on {
         quiver_core::executor::verif::set_trace(Some(vec![]));
     }
@@ -385,7 +388,11 @@ pub fn run_session_traced(lines: &[String], b: &Builtins, max_rounds: usize) -> 
         let program = sim.env.get_program().to_bytecode(None);
         Ok(SystemRun { program, repl_lines, traces, outcome, lines_run, unattributed })
     })
-    .unwrap_or_else(|p| Err(format!("panic: {}", p.lines().next().unwrap_or(""))))
+    .unwrap_or_else(|p| {
+        quiver_core::executor::verif::set_quantum_override(None);
+        quiver_core::executor::verif::set_trace(None);
+        Err(format!("panic: {}", p.lines().next().unwrap_or("")))
+    })
 }
 
 pub fn error_detail(e: &quiver_core::Error) -> String {
